@@ -102,6 +102,9 @@ func h3simChild(w *bufio.Writer, seed uint64, n int) {
 		lossRng := r.Fork()
 		var lossMu sync.Mutex
 		conc := r.Range(1, 4)
+		if r.Chance(1, 4) {
+			conc = r.Range(5, 16) // many concurrent requests on one connection
+		}
 		disableCompression := r.Chance(1, 4)
 		var batch []*h3eSpec
 		for k := 0; k < conc; k++ {
@@ -133,6 +136,7 @@ func h3simChild(w *bufio.Writer, seed uint64, n int) {
 		wd.line("SCENARIO\th3sim %s first=%s", tag, batch[0])
 		dist["client-"+kind]++
 		dist[fmt.Sprintf("faults-%d", len(faults))]++
+		dist[fmt.Sprintf("concurrency-%02d", conc)]++
 		if lossPM > 0 {
 			dist["random-loss"]++
 		}
